@@ -515,7 +515,8 @@ class Lib(object):
         if name == 'bitcoin.core.contrib.ripemd160':
             # symbolic inputs: uninterpreted function unless path_state['ripemd160'] == 'code' (C06 kernel harness)
             rip = m.ripemd160
-            stubs._REAL['ripemd160'] = lambda b: bytes(rip(VBytes(b))._d)
+            import functools
+            stubs._REAL['ripemd160'] = functools.lru_cache(maxsize=200000)(lambda b: bytes(rip(VBytes(b))._d))
 
             def ripemd160(data, _rip=rip):
                 d = VBytes(data)
